@@ -290,7 +290,7 @@ def run(ctx):
             eb = ExprBuilder(f)
             oks = [eb.operand(st["rv"]["ops"][0]) for bb, j, st in f.stmts() if st["k"] == "assign" and st["place"]["l"] == 0
                    and st["rv"]["k"] == "agg" and st["rv"].get("variant") == "Ok"]
-            if oks and all(is_call(strip(e), "core::sync::atomic::Atomic::load") for e in oks):
+            if oks and all(is_call(strip(e), "core::sync::atomic::Atomic::load", "core::sync::atomic::Atomic::into_inner") for e in oks):
                 r.ok(name, "Ok(matched.load(..))", fn=f)
             else:
                 r.bad(name, "%s's result is `%s`, not the shared matched flag" % (name, show(oks[0])[:60] if oks else "?"), fn=f, construct="status")
